@@ -388,7 +388,7 @@ def c03_scope(tier):
     P.append(("cmp-enable", V + C + M + 'm.write(v | "signal-M", when=c > 0);\nSignal out = m.read();\n', {"v": vp, "c": cp}))
     P.append(("named-cmp-enable", V + C + M + 'Signal en = c > 0;\nm.write(v | "signal-M", when=en);\nSignal out = m.read();\n', {"v": vp, "c": cp}))
     P.append(("compound-enable", V + C + G + M + 'm.write(v | "signal-M", when=(c > 0) && (g > 0));\nSignal out = m.read();\n', {"v": vp, "c": [0, 1], "g": [0, 1]}))
-    P.append(("expr-data", V + C + M + 'm.write((v * 2 + 1) | "signal-M", when=c > 0);\nSignal out = m.read() + 0;\n', {"v": vp, "c": cp}))
+    P.append(("expr-data", V + C + M + 'm.write((v * 2 + 1) | "signal-M", when=c > 0);\nSignal out = m.read();\nSignal plus = m.read() + 0;\n', {"v": vp, "c": cp}))
     P.append(("untyped-cell", V + C + 'Memory m;\nm.write(v, when=c > 0);\nSignal out = m.read();\n', {"v": vp, "c": cp}))
     P.append(("two-readers", V + C + M + 'm.write(v | "signal-M", when=c > 0);\nSignal out = m.read();\nSignal dbl = m.read() * 2;\n'
               'Entity l = place("small-lamp", 0, 0);\nl.enable = m.read() > 6;\n', {"v": vp, "c": cp}))
